@@ -8,7 +8,8 @@ MGGRID = [0.0, 1.5e-3, 0.1]             # magnesium      (0 .. 100 mM)
 
 RESOLUTION = 1e-9   # relative separation of a log argument above which the judge demands a STRICT increase (Driver/C19.lean)
 
-RULE = ("grid cases: every A/C/G/T sequence of length 2..Lf on the full 4x4x3 grid of (oligo, Na, Mg) = "
+RULE = ("('exhaustive' in the thorough evidence refers to the enumerated sub-domain only: all sequences of length 2..8 on the "
+        "fixed grid; everything else is sampled.) grid cases: every A/C/G/T sequence of length 2..Lf on the full 4x4x3 grid of (oligo, Na, Mg) = "
         "(1e-9,5e-7,2e-5,1e-3) x (1e-3,5e-2,0.2,1) x (0,1.5e-3,0.1) mol/l and every sequence of length Lf+1..Ls on a 2x2x2 "
         "sub-grid of adjacent grid values that rotates with the sequence index (quick: Lf=6, Ls=7 plus a seeded 1-in-64 "
         "sample of length 8; thorough: Lf=8, i.e. all 87376 sequences of length 2..8 on the full grid, 4.2 million calls); "
@@ -25,8 +26,9 @@ RULE = ("grid cases: every A/C/G/T sequence of length 2..Lf on the full 4x4x3 gr
         "substitution (or one inserted middle base) away from self-complementary with the mismatch in the middle, at an "
         "end or anywhere, the rest uniform; letter case random / mirror-symmetric / all upper / all lower. Conditions: "
         "oligo and Na log-uniform over the ranges, Mg = 0 (30%), log-uniform 1e-9..0.1 (35%), log-uniform 1e-5..0.1 (21%) or "
-        "uniform (14%). Judged monotonicity: every axis-adjacent pair of a grid case and every ordered pair of a pt case: "
-        "never decreasing, strictly increasing when the separation is >= 1e-9. non-trivial = sequence of length >= 2 "
+        "uniform (14%). Judged monotonicity: every two points on a common axis line of a grid case and every ordered pair of a pt case: "
+        "never decreasing, strictly increasing when the separation is >= 1e-9; in a grid case all pairs on a common axis line "
+        "(not only neighbours) are judged. non-trivial = sequence of length >= 2 "
         "(at least one neighbour pair) and, for grid cases, >= 2 grid points; distinct by case text. Sequences with other "
         "letters, the empty sequence and concentrations outside the ranges are run for correspondence only (not judged).")
 EXHAUSTIVE = {"quick": False, "thorough": True}
@@ -41,9 +43,7 @@ TRUSTED_BASE = [
 ASSUMPTIONS = ["inputs are ASCII", "concentrations are finite positive binary64 values in the stated ranges",
                "binary64 reading of 'strictly increases': never decreasing for any ordered pair of conditions; strictly "
                "increasing when a log argument (C, or Na + 140 Mg) grows by a relative 1e-9 or more (below that float64 "
-               "results tie; ties are counted in the class histogram as '-tie')",
-               "for the float64 reading of weak monotonicity via tm_weak_mono_any_arith: IEEE-754 round-to-nearest + - * / "
-               "and Go's math.Log are monotone (MonoArith in Lemmas/Thermo.lean)"]
+               "results tie; ties are counted in the class histogram as '-tie')"]
 PARTIAL = [
     "Every numeric clause is PROVED for the generic model over exact real arithmetic (Real.log) and only SAMPLED for "
     "float64 (Lean's Float is opaque to the kernel; no theorem relates the binary64 instance to the real one): "
@@ -54,9 +54,13 @@ PARTIAL = [
     "ACGATGGCAGTAGCATGC at C = 5e-7 and C + 5 ulp) and the judge checks instead: no decrease for any ordered pair, strict "
     "increase when the relative separation of the log argument is >= 1e-9 (bound derived in Driver/C19.lean: Tm moves by "
     ">= 0.1*sep K against <= 1e-12 K of rounding; confirmed on > 10^5 close pairs above the bound per thorough run, none "
-    "tying). Weak monotonicity is additionally a THEOREM for every arithmetic whose + - * / log are monotone, under sign "
-    "conditions on the computed values (tm_weak_mono_any_arith; consistent: monotone_arith_real) - that float64 with Go's "
-    "math.Log is such an arithmetic is an assumption; (iv) MarmurDoty: proved over the reals, float64 compared bit-exactly (all intermediate values are small "
+    "tying; all pairs on an axis line are judged, not only neighbours). So float64 monotonicity is: proved over exact real "
+    "arithmetic, float64 step tested by correspondence and judge. tm_weak_mono_any_arith is a CONDITIONAL theorem (never "
+    "decreasing for any arithmetic that propagates NaN and is monotone whenever both results are non-NaN, under sign "
+    "conditions on the computed values; instantiated over the reals by tm_weak_mono_real); it explains why rounding "
+    "preserves the order but it is NOT evidence about float64: that IEEE-754 arithmetic with Go's math.Log satisfies its "
+    "hypothesis (MonoArith) cannot be proved in Lean (Float is opaque) and is not assumed anywhere in the check; "
+    "(iv) MarmurDoty: proved over the reals, float64 compared bit-exactly (all intermediate values are small "
     "integers). NOT partial: case independence, concentration independence of dH and MeltingTemp = SantaLucia(defaults) are "
     "proved for every number type, hence for the binary64 instance of the model itself; the table lemmas are decided on "
     "the regenerated table.",
